@@ -95,6 +95,11 @@ func staleWriteback(c *Ctx, rule string, fs []*ssa.Function, sec, label string) 
 					break
 				}
 			}
+			if stale != "" && flatRereads(c, f, sec) {
+				// judged on the call-expanded view: the re-read may stand in a helper that settles and refreshes the
+				// caller's record through a pointer
+				stale = ""
+			}
 			r.Require(stale == "", rule, key, pos(c, wb), "a record stored back was read after the last other write to its section in this operation (no lost update)", stale)
 		}
 	}
@@ -155,4 +160,24 @@ func staleRewrite(c *Ctx, rule string, roots []*ssa.Function, sec string) int {
 		r.Require(bad == "", rule, "rewrite|"+short+"|root="+fn(root), w.Pos(root.Pos()), "a counter record is re-read before it is written again within one operation (a value read once and written back twice loses the first update)", bad)
 	}
 	return n
+}
+
+// flatRereads: on the call-expanded view of f, after any write (or delete) of the section no other write of it is reached
+// without a read of the section in between.
+func flatRereads(c *Ctx, f *ssa.Function, sec string) bool {
+	w := c.W
+	isW := directSites(c, func(e ir.Effect) bool { return (e.Kind == "StoreWrite" || e.Kind == "StoreDelete") && e.Section == sec })
+	isR := directSites(c, func(e ir.Effect) bool { return (e.Kind == "StoreRead" || e.Kind == "StoreHas") && e.Section == sec })
+	fr := w.FlatRoot(f)
+	occ := w.FlatOccurrences(fr, isW)
+	if len(occ) == 0 {
+		return false
+	}
+	for _, o := range occ {
+		from := o
+		if w.FlatReaches(fr, &from, &ir.FlatCut{Barrier: func(_ *ir.FCtx, in ssa.Instruction) bool { return isR(in) }}, func(p ir.FPos) bool { return isW(p.In) }) != nil {
+			return false
+		}
+	}
+	return true
 }
